@@ -44,6 +44,7 @@ var checks = map[string]entry{
 	"DISK": {"model_checking", props.DiskAll},
 	"EXTPROBE": {"model_checking", props.ExtProbe},
 	"PTFOREIGN": {"model_checking", props.PtForeign},
+	"C12S4K": {"model_checking", props.C12Sector4k},
 }
 
 func main() {
